@@ -14,10 +14,14 @@ Caps2 == {2}
 Caps3 == {3}
 Caps135 == {1, 3, 5}
 Caps1236 == {1, 2, 3, 6}
+(* the non-outbound budget the primary resolution is rejected on *)
+NoWork == {"none"}
+SomeWorks == {"none", "internal", "signature", "dnskey"}
+AllWorks == WorkKinds \cup {"none"}
 
 (* -simulate: every behaviour ends in pc = "done"; its final state (the history variables hold the whole run)
    is printed as one JSON line for the replay driver *)
-Final == [mode |-> mode, cap |-> cap, pre |-> pre, script |-> script, sent |-> sent, reply |-> reply, m |-> m,
+Final == [mode |-> mode, cap |-> cap, pre |-> pre, prework |-> prework, script |-> script, sent |-> sent, reply |-> reply, m |-> m,
           debits |-> debits, passes |-> passes, latched |-> latched, engaged |-> engaged, replyAt |-> replyAt,
           nsent |-> nsent, nf |-> NF, nb |-> NB]
 SimNext == Next /\ (pc' = "done" => PrintT(ToJson(Final')))
